@@ -234,6 +234,19 @@ func c12Exec(t *testing.T, rng *vrng, plan int) (c12In, c12Obs) {
 			return false
 		}
 	}
+	// the engine keeps the messages it was handed while later bids come in: they must stay what they were
+	type c12Held struct {
+		id int
+		m  *providerapiv1.Bid
+	}
+	var heldMsgs []c12Held
+	fieldsOf := func(id int, m *providerapiv1.Bid) bool {
+		p := bids[id]
+		tx, _ := hex.DecodeString(p.bid.TxHash)
+		am, _ := hex.DecodeString(p.bid.Amount)
+		return fmt.Sprint(m.TxHashes) == fmt.Sprint(splitComma(string(tx))) && m.BidAmount == string(am) && hex.EncodeToString(m.BidDigest) == p.bid.Digest &&
+			m.DecayStartTimestamp == p.bid.Start && m.DecayEndTimestamp == p.bid.End && m.BlockNumber == p.bid.Block
+	}
 	handoff := func(id int, m *providerapiv1.Bid) {
 		p := bids[id]
 		if !waitDone(p) {
@@ -242,6 +255,7 @@ func c12Exec(t *testing.T, rng *vrng, plan int) (c12In, c12Obs) {
 		in.Steps = append(in.Steps, c12Step{T: "handoff", ID: id})
 		obs.Outs = append(obs.Outs, "ok")
 		obs.EngineSaw = append(obs.EngineSaw, id)
+		heldMsgs = append(heldMsgs, c12Held{id, m})
 		tx, _ := hex.DecodeString(p.bid.TxHash)
 		am, _ := hex.DecodeString(p.bid.Amount)
 		if fmt.Sprint(m.TxHashes) != fmt.Sprint(splitComma(string(tx))) || m.BidAmount != string(am) || hex.EncodeToString(m.BidDigest) != p.bid.Digest ||
@@ -466,6 +480,11 @@ func c12Exec(t *testing.T, rng *vrng, plan int) (c12In, c12Obs) {
 				obs.StreamEnds++
 				startDec()
 			}
+		}
+	}
+	for _, hm := range heldMsgs {
+		if !fieldsOf(hm.id, hm.m) {
+			obs.FieldsOK = false
 		}
 	}
 	// quiescence: give up every parked caller (realised abandon steps), then look
